@@ -8,8 +8,8 @@ package message
 // conditions and also run by replay tests). Nothing here is compiled into a
 // normal build.
 
-//@ property C04 roots readLPBytes, (*header).decode, (*PubackMessage).Decode, (*ConnackMessage).Decode, (*DisconnectMessage).Decode, (*SubackMessage).Decode, (*PublishMessage).Decode, (*SubscribeMessage).Decode, (*UnsubscribeMessage).Decode
-//@ property C03 roots (*header).encode, (*header).msglen, writeLPBytes, (*header).SetRemainingLength, (*header).PacketID, (*header).SetPacketID, (*header).SetType, (*PubackMessage).Len, (*PubackMessage).Encode, (*PubackMessage).Decode, (*PubackMessage).msglen, (*ConnackMessage).Len, (*ConnackMessage).Encode, (*ConnackMessage).Decode, (*DisconnectMessage).Decode, (*SubackMessage).Decode, (*DisconnectMessage).Encode, (*header).Len, (*SubackMessage).Len, (*SubackMessage).Encode, (*SubackMessage).Decode, (*SubackMessage).AddReturnCodes, (*SubackMessage).AddReturnCode, (*PublishMessage).Len, (*PublishMessage).Encode, (*PublishMessage).Decode, (*PublishMessage).QoS, (*PublishMessage).SetQoS, (*PublishMessage).Retain, (*PublishMessage).SetRetain, (*PublishMessage).Dup, (*PublishMessage).SetDup, (*PublishMessage).SetTopic, (*PublishMessage).SetPayload, (*PublishMessage).Topic, (*PublishMessage).Payload, (*PublishMessage).msglen, (*SubscribeMessage).msglen, (*SubscribeMessage).Len, (*SubscribeMessage).Encode, (*SubscribeMessage).Decode, (*UnsubscribeMessage).msglen, (*UnsubscribeMessage).Len, (*UnsubscribeMessage).Encode, (*UnsubscribeMessage).Decode
+//@ property C04 roots readLPBytes, (*header).decode, (*PubackMessage).Decode, (*ConnackMessage).Decode, (*DisconnectMessage).Decode, (*SubackMessage).Decode, (*PublishMessage).Decode, (*SubscribeMessage).Decode, (*UnsubscribeMessage).Decode, (*ConnectMessage).Decode
+//@ property C03 roots (*header).encode, (*header).msglen, writeLPBytes, (*header).SetRemainingLength, (*header).PacketID, (*header).SetPacketID, (*header).SetType, (*PubackMessage).Len, (*PubackMessage).Encode, (*PubackMessage).Decode, (*PubackMessage).msglen, (*ConnackMessage).Len, (*ConnackMessage).Encode, (*ConnackMessage).Decode, (*DisconnectMessage).Decode, (*SubackMessage).Decode, (*DisconnectMessage).Encode, (*header).Len, (*SubackMessage).Len, (*SubackMessage).Encode, (*SubackMessage).Decode, (*SubackMessage).AddReturnCodes, (*SubackMessage).AddReturnCode, (*PublishMessage).Len, (*PublishMessage).Encode, (*PublishMessage).Decode, (*PublishMessage).QoS, (*PublishMessage).SetQoS, (*PublishMessage).Retain, (*PublishMessage).SetRetain, (*PublishMessage).Dup, (*PublishMessage).SetDup, (*PublishMessage).SetTopic, (*PublishMessage).SetPayload, (*PublishMessage).Topic, (*PublishMessage).Payload, (*PublishMessage).msglen, (*SubscribeMessage).msglen, (*SubscribeMessage).Len, (*SubscribeMessage).Encode, (*SubscribeMessage).Decode, (*UnsubscribeMessage).msglen, (*UnsubscribeMessage).Len, (*UnsubscribeMessage).Encode, (*UnsubscribeMessage).Decode, (*ConnectMessage).Decode, (*ConnectMessage).Len, (*ConnectMessage).Encode, (*ConnectMessage).msglen, (*ConnectMessage).encodeMessage
 
 // ---------------------------------------------------------------- spec functions
 
@@ -205,7 +205,7 @@ func vspecUvK(b []byte) int {
 // ---------------------------------------------------------------- trusted externals
 
 //@ extern fmt.Errorf
-//@   ensures result != nil
+//@   ensures result != nil && !typeis(result, ConnackCode)
 
 //@ extern (encoding/binary.bigEndian).Uint16
 //@   flag args recv, b
@@ -285,6 +285,7 @@ func vspecUvK(b []byte) int {
 //@   strictslice
 //@   ensures[C04:count] 0 <= n && n <= len(buf)
 //@   ensures[C04:accept] vspecLPOK(buf, 0, len(buf)) ==> err == nil
+//@   ensures[C11:errtype] !typeis(err, ConnackCode)
 //@   ensures[C03:value] err == nil ==> n == 2+vspecBE16(buf,0) && arr(b) == arr(buf) && off(b) == off(buf)+2 && len(b) == n-2
 //@   modifies nothing
 
@@ -293,6 +294,7 @@ func vspecUvK(b []byte) int {
 //@   strictslice
 //@   requires len(h.mtypeflags) == 1
 //@   ensures[C04:count] 0 <= n && n <= len(src)
+//@   ensures[C11:errtype] !typeis(err, ConnackCode)
 //@   ensures[C04:fits] err == nil ==> 2 <= n && 0 <= h.remlen && n+int(h.remlen) <= len(src)
 //@   ensures[C04:accept] vspecHdrOK(src, old(Type(h.mtypeflags[0]>>4))) ==> err == nil
 //@   ensures[C03:value] err == nil ==> vspecVarintOK(src, 1) && n == 1+vspecVarintN(src, 1) && int(h.remlen) == vspecVarintVal(src, 1)
@@ -834,3 +836,136 @@ func vspecPublishOK(src []byte) bool {
 //@   ensures[C03:clean] err == nil ==> !m.dirty && sameslice(m.dbuf, src[:n])
 //@   ensures[C04:accept] old(vspecHdrOK(src, Type(m.mtypeflags[0]>>4))) && old(vdefUnsubChainOK(src)) ==> err == nil
 //@   modifies m.remlen, m.mtypeflags, m.dbuf, m.dirty, m.packetID, m.topics
+
+// ---------------------------------------------------------------- CONNECT (MQTT 3.1)
+
+// Assumed: nobody mutates the exported map SupportedVersions (its initializer is {3:"MQIsdp", 4:"MQTT"}).
+//@ axiom supportedVersions
+//@   is SupportedVersions != nil && forall(0, 256, func(k int) bool { return haskey(SupportedVersions, k) == (k == 3 || k == 4) }) && SupportedVersions[3] == "MQIsdp" && SupportedVersions[4] == "MQTT"
+
+func vspecCFClean(f byte) bool      { return (f>>1)&1 == 1 }
+func vspecCFWill(f byte) bool       { return (f>>2)&1 == 1 }
+func vspecCFWillQos(f byte) byte    { return (f >> 3) & 3 }
+func vspecCFWillRetain(f byte) bool { return (f>>5)&1 == 1 }
+func vspecCFPassword(f byte) bool   { return (f>>6)&1 == 1 }
+func vspecCFUsername(f byte) bool   { return (f>>7)&1 == 1 }
+
+//@ func (*ConnectMessage).CleanSession
+//@   pure
+//@   ensures result == vspecCFClean(m.connectFlags)
+//@ func (*ConnectMessage).WillFlag
+//@   pure
+//@   ensures result == vspecCFWill(m.connectFlags)
+//@ func (*ConnectMessage).WillQos
+//@   pure
+//@   ensures result == vspecCFWillQos(m.connectFlags)
+//@ func (*ConnectMessage).WillRetain
+//@   pure
+//@   ensures result == vspecCFWillRetain(m.connectFlags)
+//@ func (*ConnectMessage).PasswordFlag
+//@   pure
+//@   ensures result == vspecCFPassword(m.connectFlags)
+//@ func (*ConnectMessage).UsernameFlag
+//@   pure
+//@   ensures result == vspecCFUsername(m.connectFlags)
+
+// The client-id syntax check is a regular-expression match; its result is left unspecified.
+//@ func (*ConnectMessage).validClientID
+//@   trusted
+//@   pure
+
+// P(src) = offset of the protocol level byte in the CONNECT variable header src (after the protocol name).
+func vspecCP(src []byte) int { return 2 + vspecBE16(src, 0) }
+
+// W(src) = offset of the will topic field (right after the client identifier)
+func vspecCW(src []byte) int { return vspecCP(src) + 6 + vspecBE16(src, vspecCP(src)+4) }
+
+// WM(src) = offset of the will message field
+func vspecCWM(src []byte) int { return vspecCW(src) + 2 + vspecBE16(src, vspecCW(src)) }
+
+// head of the variable header is acceptable up to and including the client identifier field
+//@ define vdefConnHeadOK(src)
+//@   is vspecLPOK(src, 0, len(src)) && vspecCP(src)+4 <= len(src) && haskey(SupportedVersions, src[vspecCP(src)]) && SupportedVersions[src[vspecCP(src)]] == string(src[2:vspecCP(src)])
+//@      && src[vspecCP(src)+1]&1 == 0 && vspecCFWillQos(src[vspecCP(src)+1]) <= 2 && (vspecCFWill(src[vspecCP(src)+1]) || (!vspecCFWillRetain(src[vspecCP(src)+1]) && vspecCFWillQos(src[vspecCP(src)+1]) == 0))
+//@      && vspecLPOK(src, vspecCP(src)+4, len(src))
+
+//@ func (*ConnectMessage).decodeMessage
+//@   results n, err
+//@   strictslice
+//@   requires len(m.mtypeflags) == 1
+//@   requires len(m.willTopic) == 0 && len(m.willMessage) == 0 && len(m.username) == 0 && len(m.password) == 0
+//@   ensures[C04:count] 0 <= n && n <= len(src)
+//@   ensures[C04:inside] err == nil ==> within(m.protoName, src, n) && within(m.clientID, src, n) && within(m.willTopic, src, n) && within(m.willMessage, src, n) && within(m.username, src, n) && within(m.password, src, n)
+//@   ensures[C11:level] vspecLPOK(src, 0, len(src)) && vspecCP(src)+1 < len(src) && !(haskey(SupportedVersions, src[vspecCP(src)]) && SupportedVersions[src[vspecCP(src)]] == string(src[2:vspecCP(src)])) ==> isErr(err, ErrInvalidProtocolVersion)
+//@   ensures[C11:cid] vdefConnHeadOK(src) && vspecBE16(src, vspecCP(src)+4) == 0 && !vspecCFClean(src[vspecCP(src)+1]) ==> isErr(err, ErrIdentifierRejected)
+//@   ensures[C11:other] typeis(err, ConnackCode) ==> isErr(err, ErrInvalidProtocolVersion) || isErr(err, ErrIdentifierRejected)
+//@   ensures[C03:head] err == nil ==> vspecLPOK(src, 0, len(src)) && vspecCP(src)+4 <= len(src) && src[vspecCP(src)+1]&1 == 0 && vspecCFWillQos(src[vspecCP(src)+1]) <= 2 && (vspecCFWill(src[vspecCP(src)+1]) || (!vspecCFWillRetain(src[vspecCP(src)+1]) && vspecCFWillQos(src[vspecCP(src)+1]) == 0)) && vspecLPOK(src, vspecCP(src)+4, len(src))
+//@   ensures[C03:name] err == nil ==> haskey(SupportedVersions, src[vspecCP(src)]) && SupportedVersions[src[vspecCP(src)]] == string(src[2:vspecCP(src)])
+//@   ensures[C03:fields] err == nil ==> sameslice(m.protoName, src[2:vspecCP(src)]) && m.version == src[vspecCP(src)] && m.connectFlags == src[vspecCP(src)+1] && int(m.keepAlive) == vspecBE16(src, vspecCP(src)+2)
+//@        && sameslice(m.clientID, src[vspecCP(src)+6:vspecCP(src)+6+vspecBE16(src, vspecCP(src)+4)])
+//@   ensures[C03:will] err == nil && vspecCFWill(src[vspecCP(src)+1]) ==> vspecLPOK(src, vspecCW(src), len(src)) && sameslice(m.willTopic, src[vspecCW(src)+2:vspecCW(src)+2+vspecBE16(src, vspecCW(src))])
+//@        && vspecLPOK(src, vspecCWM(src), len(src)) && sameslice(m.willMessage, src[vspecCWM(src)+2:vspecCWM(src)+2+vspecBE16(src, vspecCWM(src))])
+//@   ensures[C03:nowill] err == nil && !vspecCFWill(src[vspecCP(src)+1]) ==> len(m.willTopic) == 0 && len(m.willMessage) == 0
+//@   ensures[C09:willflag] err == nil ==> m.connectFlags == src[vspecCP(src)+1]
+//@   modifies m.protoName, m.version, m.connectFlags, m.keepAlive, m.clientID, m.willTopic, m.willMessage, m.username, m.password
+
+//@ func (*ConnectMessage).Decode
+//@   results n, err
+//@   strictslice
+//@   requires len(m.mtypeflags) == 1
+//@   requires len(m.willTopic) == 0 && len(m.willMessage) == 0 && len(m.username) == 0 && len(m.password) == 0
+//@   ensures[C04:count] 0 <= n && n <= len(src)
+//@   ensures[C04:inside] err == nil ==> within(m.mtypeflags, src, n) && within(m.dbuf, src, n) && within(m.protoName, src, n) && within(m.clientID, src, n) && within(m.willTopic, src, n) && within(m.willMessage, src, n) && within(m.username, src, n) && within(m.password, src, n)
+//@   ensures[C03:fields] err == nil ==> n == vspecH(src)+vspecVarintVal(src, 1) && int(m.remlen) == vspecVarintVal(src, 1) && sameslice(m.mtypeflags, src[0:1])
+//@   ensures[C03:clean] err == nil ==> !m.dirty && sameslice(m.dbuf, src[:n])
+//@   ensures[C11:other] typeis(err, ConnackCode) ==> isErr(err, ErrInvalidProtocolVersion) || isErr(err, ErrIdentifierRejected)
+//@   ensures[C11:level] vspecHdrOK(src, old(Type(m.mtypeflags[0]>>4))) && vspecLPOK(src, vspecH(src), vspecH(src)+vspecVarintVal(src, 1)) && vspecH(src)+2+vspecBE16(src, vspecH(src))+1 < vspecH(src)+vspecVarintVal(src, 1)
+//@        && !(haskey(SupportedVersions, src[vspecH(src)+2+vspecBE16(src, vspecH(src))]) && SupportedVersions[src[vspecH(src)+2+vspecBE16(src, vspecH(src))]] == string(src[vspecH(src)+2:vspecH(src)+2+vspecBE16(src, vspecH(src))])) ==> isErr(err, ErrInvalidProtocolVersion)
+//@   modifies m.remlen, m.mtypeflags, m.dbuf, m.dirty, m.protoName, m.version, m.connectFlags, m.keepAlive, m.clientID, m.willTopic, m.willMessage, m.username, m.password
+
+// body length of a CONNECT built from the fields of m (0 if the protocol level is unsupported, as msglen does)
+//@ define vdefConnWillLen(m)
+//@   is ite(vspecCFWill(m.connectFlags), 2+len(m.willTopic)+2+len(m.willMessage), 0)
+//@ define vdefConnUserLen(m)
+//@   is ite(vspecCFUsername(m.connectFlags) && len(m.username) > 0, 2+len(m.username), 0)
+//@ define vdefConnPassLen(m)
+//@   is ite(vspecCFPassword(m.connectFlags) && len(m.password) > 0, 2+len(m.password), 0)
+//@ define vdefConnBody(m)
+//@   is ite(haskey(SupportedVersions, m.version), 2+len(SupportedVersions[m.version])+4+2+len(m.clientID)+vdefConnWillLen(m)+vdefConnUserLen(m)+vdefConnPassLen(m), 0)
+//@ define vdefConnSizes(m)
+//@   is len(m.clientID) <= 65535 && len(m.willTopic) <= 65535 && len(m.willMessage) <= 65535 && len(m.username) <= 65535 && len(m.password) <= 65535
+
+//@ func (*ConnectMessage).msglen
+//@   pure
+//@   requires vdefConnSizes(m)
+//@   ensures result == vdefConnBody(m) && 0 <= result && result <= 400000
+
+//@ func (*ConnectMessage).Len
+//@   requires vdefConnSizes(m)
+//@   ensures[C03:len] !old(m.dirty) ==> result == len(m.dbuf) && m.remlen == old(m.remlen) && !m.dirty
+//@   ensures[C03:len] old(m.dirty) ==> result == 1+vspecVarintLen(vdefConnBody(m))+vdefConnBody(m) && int(m.remlen) == vdefConnBody(m) && m.dirty
+//@   modifies m.remlen, m.dirty
+
+// encodeMessage writes the variable header and payload: name, level, flags, keep alive, client id, [will topic, will message], [user], [password]
+//@ func (*ConnectMessage).encodeMessage
+//@   results n, err
+//@   requires vdefConnSizes(m) && haskey(SupportedVersions, m.version) && len(dst) >= vdefConnBody(m)
+//@   requires arr(dst) != arr(m.clientID) && arr(dst) != arr(m.willTopic) && arr(dst) != arr(m.willMessage) && arr(dst) != arr(m.username) && arr(dst) != arr(m.password)
+//@   ensures[C03:len] err == nil ==> n == vdefConnBody(m)
+//@   ensures[C03:accept] err == nil
+//@   ensures[C03:wire] err == nil ==> vspecBE16(dst, 0) == len(SupportedVersions[m.version]) && forall(0, len(SupportedVersions[m.version]), func(i int) bool { return dst[2+i] == SupportedVersions[m.version][i] })
+//@        && dst[vspecCP(dst)] == m.version && dst[vspecCP(dst)+1] == m.connectFlags && vspecBE16(dst, vspecCP(dst)+2) == int(m.keepAlive)
+//@        && vspecBE16(dst, vspecCP(dst)+4) == len(m.clientID) && eqbytes(dst[vspecCP(dst)+6:vspecCP(dst)+6+len(m.clientID)], m.clientID)
+//@   ensures[C03:will] err == nil && vspecCFWill(m.connectFlags) ==> vspecBE16(dst, vspecCW(dst)) == len(m.willTopic) && eqbytes(dst[vspecCW(dst)+2:vspecCW(dst)+2+len(m.willTopic)], m.willTopic)
+//@        && vspecBE16(dst, vspecCWM(dst)) == len(m.willMessage) && eqbytes(dst[vspecCWM(dst)+2:vspecCWM(dst)+2+len(m.willMessage)], m.willMessage)
+//@   modifies elems(dst, 0, n)
+
+//@ func (*ConnectMessage).Encode
+//@   results n, err
+//@   requires len(m.mtypeflags) == 1 && vdefConnSizes(m)
+//@   requires arr(dst) != arr(m.clientID) && arr(dst) != arr(m.willTopic) && arr(dst) != arr(m.willMessage) && arr(dst) != arr(m.username) && arr(dst) != arr(m.password) && arr(dst) != arr(m.mtypeflags)
+//@   ensures[C03:len] err == nil && !old(m.dirty) ==> n == len(old(m.dbuf)) && n <= len(dst) && eqold(dst[:n], m.dbuf)
+//@   ensures[C03:len] err == nil && old(m.dirty) ==> n == 1+vspecVarintLen(vdefConnBody(m))+vdefConnBody(m) && n <= len(dst) && int(m.remlen) == vdefConnBody(m) && haskey(SupportedVersions, m.version)
+//@   ensures[C03:wire] err == nil && old(m.dirty) ==> dst[0] == m.mtypeflags[0] && Type(m.mtypeflags[0]>>4) == CONNECT && forall(0, vspecVarintLen(int(m.remlen)), func(k int) bool { return int(dst[1+k]) == vspecVarintByte(int(m.remlen), k) })
+//@   ensures[C03:accept] old(m.dirty) && Type(m.mtypeflags[0]>>4) == CONNECT && haskey(SupportedVersions, m.version) && len(dst) >= 5+vdefConnBody(m) ==> err == nil
+//@   modifies elems(dst, 0, n), m.remlen, m.dirty
